@@ -41,5 +41,9 @@ theorem mget_mtab {α : Type} [Scalar α] (r c : ℕ) (f : ℕ → ℕ → α) (
 theorem mget_mtab_fin {α : Type} [Scalar α] (r c : ℕ) (f : ℕ → ℕ → α) (i : Fin r) (j : Fin c) :
     mget (mtab r c f) i.val j.val = f i.val j.val := mget_mtab r c f _ _ i.isLt j.isLt
 
+theorem bget_btab (r c : ℕ) (f : ℕ → ℕ → Bool) (i j : ℕ) (hi : i < r) (hj : j < c) :
+    bget (btab r c f) i j = f i j := by
+  simp [bget, btab, hi, hj]
+
 end
 end PydlVerif.Solvers
